@@ -24,10 +24,11 @@ PROPS = {
                      "pack ids determine pack content (sha-256)"],
     ),
     "C02": dict(
-        kmod="K_C02", driver="C02", shard=40, explain=True, case_timeout="300s",
+        parts=[dict(driver="C02", kmod="K_C02", shard=40, explain=True), dict(driver="C09", kmod="K_C09", shard=100, explain=True)],
+        case_timeout="300s",
         corr="Sync.sstep (over World.step) = bug.{Create,Read,Commit,Push,Fetch,MergeAll,Remove} on go-git repositories",
         rule=WORLD_RULE, trusted=COMMON_TRUSTED + WORLD_TRUSTED,
-        assumptions=["identity merges are covered by the C09 check (same property, identity side)"],
+        assumptions=["the identity side is the C09 driver (version chains on two replicas, identity.MergeAll) judged by K_C09"],
     ),
     "C03": dict(
         parts=[dict(driver="C03d", kmod="K_C03", shard=400, explain=True), dict(driver="C03w", kmod="K_C03w", shard=40, explain=True)],
